@@ -189,6 +189,12 @@ class ModelsOps:
         if op is ast.IsNot:
             return BoolV(not self.is_(l, r, node))
         if op in (ast.In, ast.NotIn):
+            if isinstance(r, TupleV) or (isinstance(r, ListV) and r.items is not None):
+                hit = any(self.keys_equal(x, l, node) for x in r.items)
+                return BoolV(hit if op is ast.In else not hit)
+            if type(r).__name__ == "DictV":
+                hit = any(self.keys_equal(k, l, node) for k, _ in r.items)
+                return BoolV(hit if op is ast.In else not hit)
             if isinstance(r, (ListV, GlobalMapV, OpaqueV, TupleV)) and not (isinstance(r, TupleV)):
                 res = bool(I.choose(2, f"in@{getattr(node, 'lineno', '?')}", ["absent", "present"]))
                 self.st.effects.append(("contains", r, l, res, self.where(node)))
